@@ -189,10 +189,35 @@ Fixpoint stays_up (s : state) (evs : list event) : Prop :=
   | e :: r => s_proto (fst (step s e)) = true /\ stays_up (fst (step s e)) r
   end.
 
+Lemma fire_down_proto s : s_proto (fst (fire_down s)) = s_proto s.
+Proof. unfold fire_down. destruct (s_down s); destruct s; reflexivity. Qed.
+
+Lemma step_close_proto s : s_proto (fst (step s EClose)) = s_proto s.
+Proof.
+  cbn [step]. destruct (s_down s); try reflexivity.
+  assert (W : forall s1 o1, s_proto (fst (let (t2, o2) := fail_all (t_with_reqs (s_t s1) []) (rev (t_reqs (s_t s1))) in (with_t s1 t2, o1 ++ o2))) = s_proto s1).
+  { intros s1 o1. destruct (fail_all _ _). destruct s1; reflexivity. }
+  assert (E0 : s_proto (with_down s DPending) = s_proto s) by (destruct s; reflexivity).
+  destruct (s_proto (with_down s DPending)) eqn:P0.
+  - rewrite W. congruence.
+  - destruct (s_connector (with_down s DPending)).
+    + destruct (fire_down (with_down s DPending)) as [s1 o1] eqn:F. rewrite W.
+      pose proof (fire_down_proto (with_down s DPending)) as X. rewrite F in X. cbn [fst] in X. congruence.
+    + destruct (fire_down (with_connector (with_down s DPending) CStale)) as [s1 o1] eqn:F. rewrite W.
+      pose proof (fire_down_proto (with_connector (with_down s DPending) CStale)) as X. rewrite F in X. cbn [fst] in X.
+      rewrite X. destruct s; cbn in *; congruence.
+    + destruct (fire_down (with_connector (with_down s DPending) CStale)) as [s1 o1] eqn:F. rewrite W.
+      pose proof (fire_down_proto (with_connector (with_down s DPending) CStale)) as X. rewrite F in X. cbn [fst] in X.
+      rewrite X. destruct s; cbn in *; congruence.
+    + rewrite W. congruence.
+Qed.
+
 Lemma proto_on s e : CInv s -> s_proto s = false -> s_proto (fst (step s e)) = true ->
   e = EConnOk /\ s_connector s = CAttempt.
 Proof.
-  intros C P H. destruct e; cbn [step] in H; rewrite ?P in H; cbn [fst] in H; try congruence.
+  intros C P H.
+  assert (HC : e = EClose -> False). { intros ->. rewrite step_close_proto in H. congruence. }
+  destruct e; cbn [step] in H; rewrite ?P in H; cbn [fst] in H.
   - exfalso. unfold make_request in H. destruct (lookup rid (t_reqs (s_t s))); cbn in H; [congruence|].
     destruct (s_down s); rewrite ?P in H.
     + destruct (s_connector s); destruct s; cbn in *; congruence.
@@ -201,23 +226,16 @@ Proof.
   - exfalso. unfold lift in H. destruct s; cbn in *; congruence.
   - destruct (s_connector s) eqn:K; cbn [fst] in H; try congruence. auto.
   - exfalso. destruct (s_connector s); cbn [fst] in H; try congruence.
-    destruct (s_down s); [destruct s; cbn in *; congruence| |]; unfold fire_down in H;
-      destruct (s_down (with_connector s CStale)); destruct s; cbn in *; congruence.
+    destruct (s_down s).
+    + destruct s; cbn in *; congruence.
+    + rewrite fire_down_proto in H. destruct s; cbn in *; congruence.
+    + rewrite fire_down_proto in H. destruct s; cbn in *; congruence.
+  - congruence.
+  - congruence.
+  - congruence.
   - exfalso. destruct (s_connector s); destruct s; cbn in *; congruence.
-  - exfalso. pose proof (close_ok s _ _ C (surjective_pairing _)) as (C' & _).
-    destruct (s_down s) eqn:D.
-    + pose proof (ci_dpend _ C') as A. pose proof (ci_dfired _ C') as B.
-      (* after close() of a disconnected client the close Deferred has fired: proto stays false *)
-      cbn [step] in C', A, B. rewrite D in *.
-      assert (X : s_proto (with_down s DPending) = false) by (destruct s; exact P).
-      rewrite X in *.
-      destruct (s_connector (with_down s DPending)) eqn:Kc;
-        repeat match goal with
-        | H0 : context [fire_down ?x] |- _ => unfold fire_down in H0
-        | H0 : context [fail_all ?a ?b] |- _ => destruct (fail_all a b) eqn:?
-        end; destruct s; cbn in *; congruence.
-    + cbn [fst] in H. congruence.
-    + cbn [fst] in H. congruence.
+  - exfalso. apply HC. reflexivity.
+  - congruence.
   - exfalso. destruct same; destruct s; cbn in *; congruence.
 Qed.
 
@@ -230,7 +248,7 @@ Proof. intros S r Hr. left. destruct (S r Hr) as (x & Hx & _ & _ & E). exists x.
 Lemma up_step s e s' o : CInv s -> s_proto s = true -> step s e = (s', o) -> s_proto s' = true ->
   from_or_written s s' o.
 Proof.
-  intros C P H P'. pose proof (ci_t s C) as T. destruct e; cbn [step] in H; rewrite ?P in H.
+  intros C P H P'. pose proof (ci_t s C) as T. pose proof H as H0. destruct e; cbn [step] in H; rewrite ?P in H.
   - (* makeRequest on the live connection: written at once *)
     unfold make_request in H. destruct (lookup rid (t_reqs (s_t s))) eqn:L.
     { injection H as <- <-. apply sub_from. apply sub_flags_refl. }
@@ -260,11 +278,12 @@ Proof.
     exfalso. destruct (s_down _); [destruct (map _ _)|..];
       repeat match goal with H0 : context [fire_down ?x] |- _ => unfold fire_down in H0; destruct (s_down x) end;
       unfold connect, try_connect in H; injection H as <- _; destruct s; cbn in *; congruence.
-  - rewrite <- (surjective_pairing (data_in s chunk)) in H. injection H as <- <-. apply sub_from. apply data_in_sub.
-  - rewrite <- (surjective_pairing (data_in s (encode_frame body))) in H. injection H as <- <-. apply sub_from. apply data_in_sub.
+  - pose proof (f_equal fst H) as E1. pose proof (f_equal snd H) as E2. cbn [fst snd] in E1, E2. subst s' o.
+    apply sub_from. apply data_in_sub.
+  - pose proof (f_equal fst H) as E1. pose proof (f_equal snd H) as E2. cbn [fst snd] in E1, E2. subst s' o.
+    apply sub_from. apply data_in_sub.
   - rewrite (ci_conn s C P) in H. injection H as <- <-. apply sub_from. apply sub_flags_refl.
-  - pose proof (close_quiet s) as (_ & _ & S & _). cbn [step] in S. rewrite P in S.
-    assert (E : s' = fst (s', o)) by reflexivity. rewrite E, <- H. apply sub_from. exact S.
+  - pose proof (close_quiet s) as (_ & _ & S & _). rewrite H0 in S. cbn [fst] in S. apply sub_from. exact S.
   - injection H as <- <-. apply sub_from. apply sub_flags_refl.
   - destruct same; injection H as <- <-; apply sub_from; destruct s; apply sub_flags_refl.
 Qed.
@@ -330,7 +349,7 @@ Proof.
   intros r Hr. apply in_app_iff.
   destruct (up_run evs2 s2 s o2 C2 P2 U R2 r Hr) as [(r0 & Hr0 & Eh)|Wr]; [left | right; exact Wr].
   (* r0 is an entry of the table right after the connection came up: all of those were written by that step *)
-  unfold reqs in Hr0. rewrite Rq in Hr0. unfold sq_reqs in Hr0. apply in_map_iff in Hr0. destruct Hr0 as (q & <- & Hq).
+  unfold reqs in *. rewrite Rq in Hr0. unfold sq_reqs in Hr0. apply in_map_iff in Hr0. destruct Hr0 as (q & <- & Hq).
   apply filter_In in Hq. destruct Hq as [Hq _].
   assert (In (r_h q, r_id q) (writes (sq_outs (t_reqs (s_t s1))))) by (rewrite W; apply (in_map (fun r => (r_h r, r_id r))); exact Hq).
   assert (Ei : r_id q = r_id r).
